@@ -412,13 +412,17 @@ class NamedTupleAdapter(GenericCallAdapter):
     @classmethod
     def arguments(cls, value: IsNamedTuple):
 
+        # default values are reported like for the other adapters
+        # (they are not part of the repr, but their Is() values have to be preserved)
         return (
             [],
             {
-                field: Argument(value=getattr(value, field))
+                field: Argument(
+                    value=getattr(value, field),
+                    is_default=field in value._field_defaults
+                    and getattr(value, field) == value._field_defaults[field],
+                )
                 for field in value._fields
-                if field not in value._field_defaults
-                or getattr(value, field) != value._field_defaults[field]
             },
         )
 
